@@ -69,6 +69,9 @@ type DutySpec struct {
 	// to sign); Order: position of its attestation in the returned list.
 	NoAtt bool   `json:"no_att,omitempty"`
 	Order uint32 `json:"order"`
+	// SigFail: the slot-selection signer fails every (batch) request that contains
+	// this validator - i.e. the request for the slot of its duty.
+	SigFail bool `json:"sig_fail,omitempty"`
 }
 
 // Case is the world: duties of epoch Epoch and Epoch+1, the current slot, the
@@ -88,6 +91,19 @@ type Case struct {
 	Reorg *ReorgSpec `json:"reorg,omitempty"`
 	// Refail: after that (or directly after start-up) a re-subscription attempt that fails.
 	Refail *RefailSpec `json:"refail,omitempty"`
+	// Concurrency: the subscriber's process concurrency (1, 2 or 4; 0 = 4).
+	Concurrency int64 `json:"concurrency,omitempty"`
+	// SlowSubmit: the beacon node does not answer the subscription requests made at the
+	// controller's start-up until the attestation jobs of both epochs have run (only in
+	// histories without duty change / failing re-subscription).
+	SlowSubmit bool `json:"slow_submit,omitempty"`
+}
+
+func (c *Case) concurrency() int64 {
+	if c.Concurrency <= 0 {
+		return 4
+	}
+	return c.Concurrency
 }
 
 // ReorgSpec is the history step "duties of an epoch change".
@@ -218,22 +234,33 @@ func accountValidator(a e2wtypes.Account) (uint64, bool) {
 	return binary.LittleEndian.Uint64(b[1:9]), true
 }
 
-type accountsProvider struct{ vs []uint64 }
+// accountsProvider answers per epoch: a validator is active (and gets duties)
+// in the epochs in which the duty table gives it a duty - validators that have a
+// duty only in the later epoch activate at its start, those with a duty only in
+// the earlier one have exited by then.
+type accountsProvider struct {
+	epoch     uint64 // first of the two epochs
+	cur, next []uint64
+}
 
-func (p *accountsProvider) all() map[phase0.ValidatorIndex]e2wtypes.Account {
+func (p *accountsProvider) forEpoch(epoch uint64) map[phase0.ValidatorIndex]e2wtypes.Account {
+	vs := p.cur
+	if epoch > p.epoch {
+		vs = p.next
+	}
 	res := map[phase0.ValidatorIndex]e2wtypes.Account{}
-	for _, v := range p.vs {
+	for _, v := range vs {
 		res[phase0.ValidatorIndex(v)] = newAccount(v)
 	}
 	return res
 }
 
-func (p *accountsProvider) ValidatingAccountsForEpoch(context.Context, phase0.Epoch) (map[phase0.ValidatorIndex]e2wtypes.Account, error) {
-	return p.all(), nil
+func (p *accountsProvider) ValidatingAccountsForEpoch(_ context.Context, epoch phase0.Epoch) (map[phase0.ValidatorIndex]e2wtypes.Account, error) {
+	return p.forEpoch(uint64(epoch)), nil
 }
 
-func (p *accountsProvider) ValidatingAccountsForEpochByIndex(_ context.Context, _ phase0.Epoch, indices []phase0.ValidatorIndex) (map[phase0.ValidatorIndex]e2wtypes.Account, error) {
-	all := p.all()
+func (p *accountsProvider) ValidatingAccountsForEpochByIndex(_ context.Context, epoch phase0.Epoch, indices []phase0.ValidatorIndex) (map[phase0.ValidatorIndex]e2wtypes.Account, error) {
+	all := p.forEpoch(uint64(epoch))
 	res := map[phase0.ValidatorIndex]e2wtypes.Account{}
 	for _, i := range indices {
 		if a, ok := all[i]; ok {
@@ -252,14 +279,27 @@ func (p *accountsProvider) SyncCommitteeAccountsForEpochByIndex(context.Context,
 }
 
 // slotSigner is the slot-selection signer double.
-type slotSigner struct{ seed uint64 }
+type slotSigner struct {
+	seed uint64
+	t    *table
+}
 
 func (s *slotSigner) SignSlotSelections(_ context.Context, accounts []e2wtypes.Account, slot phase0.Slot) ([]phase0.BLSSignature, error) {
 	res := make([]phase0.BLSSignature, len(accounts))
+	failing := map[uint64]bool{}
+	committees, duties := s.t.get()
+	for _, d := range duties {
+		if d.SigFail && committees[d.C].Slot == uint64(slot) {
+			failing[d.V] = true
+		}
+	}
 	for i, a := range accounts {
 		v, ok := accountValidator(a)
 		if !ok {
 			return nil, fmt.Errorf("slot signer double: unknown account at position %d", i)
+		}
+		if failing[v] {
+			return nil, fmt.Errorf("scripted slot selection signing failure (validator %d, slot %d)", v, slot)
 		}
 		res[i] = slotSig(s.seed, v, uint64(slot))
 	}
@@ -323,6 +363,31 @@ type subsSubmitter struct {
 	calls  [][]*apiv1.BeaconCommitteeSubscription
 	phases []int // phase in force when the call was made
 	phase  int   // 0 = start-up, 1 = after the reorg
+	// hold: the beacon node receives the request but does not answer until released
+	hold    bool
+	release chan struct{}
+	held    int
+}
+
+func (s *subsSubmitter) startHolding() {
+	s.mu.Lock()
+	s.hold, s.release = true, make(chan struct{})
+	s.mu.Unlock()
+}
+
+func (s *subsSubmitter) releaseAll() {
+	s.mu.Lock()
+	if s.hold {
+		s.hold = false
+		close(s.release)
+	}
+	s.mu.Unlock()
+}
+
+func (s *subsSubmitter) heldCount() int {
+	s.mu.Lock()
+	defer s.mu.Unlock()
+	return s.held
 }
 
 func (s *subsSubmitter) setPhase(p int) {
@@ -344,9 +409,8 @@ func (s *subsSubmitter) inPhase(p int) []*apiv1.BeaconCommitteeSubscription {
 	return res
 }
 
-func (s *subsSubmitter) SubmitBeaconCommitteeSubscriptions(_ context.Context, subs []*apiv1.BeaconCommitteeSubscription) error {
+func (s *subsSubmitter) SubmitBeaconCommitteeSubscriptions(ctx context.Context, subs []*apiv1.BeaconCommitteeSubscription) error {
 	s.mu.Lock()
-	defer s.mu.Unlock()
 	cp := make([]*apiv1.BeaconCommitteeSubscription, 0, len(subs))
 	for _, x := range subs {
 		if x != nil {
@@ -356,6 +420,20 @@ func (s *subsSubmitter) SubmitBeaconCommitteeSubscriptions(_ context.Context, su
 	}
 	s.calls = append(s.calls, cp)
 	s.phases = append(s.phases, s.phase)
+	if !s.hold {
+		s.mu.Unlock()
+		return nil
+	}
+	release := s.release
+	s.held++
+	s.mu.Unlock()
+	select {
+	case <-release:
+	case <-ctx.Done():
+	}
+	s.mu.Lock()
+	s.held--
+	s.mu.Unlock()
 	return nil
 }
 
@@ -582,6 +660,17 @@ func genCase(t *rapid.T) Case {
 	// the beacon node returns duties in the order of the request, which is arbitrary
 	perm := rapid.Permutation(c.Duties).Draw(t, "dutyOrder")
 	c.Duties = perm
+	c.Concurrency = rapid.SampledFrom([]int64{1, 2, 4}).Draw(t, "concurrency")
+	if mode := rapid.IntRange(0, 9).Draw(t, "sigFailMode"); mode < 4 {
+		// the slot-selection signer refuses some requests: a few (mode 0-1) or about half of the duties
+		for i := range c.Duties {
+			p := 8
+			if mode >= 2 {
+				p = 2
+			}
+			c.Duties[i].SigFail = rapid.IntRange(0, p-1).Draw(t, "sigFail") == 0
+		}
+	}
 	if c.Epoch >= 1 && rapid.IntRange(0, 4).Draw(t, "reorg") < 2 {
 		c.Reorg = genReorg(t, &c)
 		c.Reorg.SubscribeFails = rapid.IntRange(0, 3).Draw(t, "reorgSubscribeFails") == 0
@@ -596,6 +685,9 @@ func genCase(t *rapid.T) Case {
 		default:
 			c.Refail.Previous, c.Refail.Current = true, true
 		}
+	}
+	if c.Reorg == nil && c.Refail == nil {
+		c.SlowSubmit = rapid.IntRange(0, 2).Draw(t, "slowSubmit") == 0
 	}
 	return c
 }
@@ -693,6 +785,7 @@ type pairInfo struct {
 	vals     []uint64 // our validators in the pair
 	selected []uint64 // those selected as aggregator by the reference rule
 	hasAtt   bool     // the attester returns at least one attestation for the pair
+	excused  bool     // the slot-selection signing of the pair's slot fails: nothing is demanded for it
 }
 
 func buildPairs(c *Case, committees []CommitteeSpec, duties []DutySpec) map[pairKey]*pairInfo {
@@ -713,6 +806,15 @@ func buildPairs(c *Case, committees []CommitteeSpec, duties []DutySpec) map[pair
 			p.hasAtt = true
 		}
 	}
+	failSlot := map[uint64]bool{}
+	for _, d := range duties {
+		if d.SigFail {
+			failSlot[committees[d.C].Slot] = true
+		}
+	}
+	for k, p := range pairs {
+		p.excused = failSlot[k.slot]
+	}
 	return pairs
 }
 
@@ -726,13 +828,17 @@ func contains(l []uint64, v uint64) bool {
 }
 
 // quiesce waits until the goroutines started by the code under test are gone.
-func quiesce(baseline int) bool {
+func quiesce(baseline int, parked ...func() int) bool {
 	// The goroutines waited for are runnable (all doubles answer immediately), so
 	// yielding is enough; sleeping is only the fallback on a heavily loaded machine.
 	deadline := time.Now().Add(30 * time.Second)
 	stable := 0
 	for spins := 0; ; spins++ {
-		if runtime.NumGoroutine() <= baseline {
+		extra := 0
+		for _, f := range parked {
+			extra += f()
+		}
+		if runtime.NumGoroutine() <= baseline+extra {
 			stable++
 			if stable >= 2 {
 				return true
@@ -808,6 +914,12 @@ func validCase(c *Case) error {
 	if err := validTable(c, c.Committees, c.Duties); err != nil {
 		return err
 	}
+	if c.SlowSubmit && (c.Reorg != nil || c.Refail != nil) {
+		return fmt.Errorf("slow_submit is only defined for histories without duty change / failing re-subscription")
+	}
+	if c.Concurrency < 0 || c.Concurrency > 64 {
+		return fmt.Errorf("malformed concurrency")
+	}
 	if f := c.Refail; f != nil && (c.Epoch == 0 || !(f.Previous || f.Current)) {
 		return fmt.Errorf("malformed failing re-subscription step")
 	}
@@ -862,6 +974,8 @@ type stats struct {
 	reorg, reorgNewFuturePair       bool
 	reorgNewAggregatorPair          bool
 	refail, failedRefreshWithChange bool
+	excusedPairs                    int
+	activationAtNextEpoch           bool
 }
 
 type env struct {
@@ -878,14 +992,21 @@ func newEnv(ctx context.Context, c *Case) (*env, error) {
 	e.clock = fakes.NewVClock(time.Unix(1600000000, 0), 12*time.Second, c.SlotsPerEpoch)
 	e.clock.SetSlot(c.currentSlot(), 2*time.Second)
 	seen := map[uint64]bool{}
+	e.acc = &accountsProvider{epoch: c.Epoch}
 	for _, d := range c.Duties {
 		if !seen[d.V] {
 			seen[d.V] = true
 			e.vs = append(e.vs, d.V)
 		}
+		if c.Committees[d.C].Slot/c.SlotsPerEpoch == c.Epoch {
+			e.acc.cur = append(e.acc.cur, d.V)
+		} else {
+			e.acc.next = append(e.acc.next, d.V)
+		}
 	}
 	sort.Slice(e.vs, func(i, j int) bool { return e.vs[i] < e.vs[j] })
-	e.acc = &accountsProvider{vs: e.vs}
+	sort.Slice(e.acc.cur, func(i, j int) bool { return e.acc.cur[i] < e.acc.cur[j] })
+	sort.Slice(e.acc.next, func(i, j int) bool { return e.acc.next[i] < e.acc.next[j] })
 	agg, err := standardaggregator.New(ctx,
 		standardaggregator.WithLogLevel(zerolog.Disabled),
 		standardaggregator.WithMonitor(nullmetrics.New()),
@@ -894,7 +1015,7 @@ func newEnv(ctx context.Context, c *Case) (*env, error) {
 		standardaggregator.WithValidatingAccountsProvider(e.acc),
 		standardaggregator.WithAggregateAttestationProvider(mock.NewAggregateAttestationProvider()),
 		standardaggregator.WithAggregateAttestationsSubmitter(mock.NewAggregateAttestationsSubmitter()),
-		standardaggregator.WithSlotSelectionSigner(&slotSigner{seed: c.SigSeed}),
+		standardaggregator.WithSlotSelectionSigner(&slotSigner{seed: c.SigSeed, t: e.tab}),
 		standardaggregator.WithAggregateAndProofSigner(mocksigner.New()),
 	)
 	if err != nil {
@@ -908,12 +1029,94 @@ func (e *env) newSubscriber(ctx context.Context, sub *subsSubmitter, fail *flag)
 	return standardsubscriber.New(ctx,
 		standardsubscriber.WithLogLevel(zerolog.Disabled),
 		standardsubscriber.WithMonitor(nullmetrics.New()),
-		standardsubscriber.WithProcessConcurrency(4),
+		standardsubscriber.WithProcessConcurrency(e.c.concurrency()),
 		standardsubscriber.WithChainTimeService(e.clock),
 		standardsubscriber.WithAttesterDutiesProvider(&dutiesProvider{e.c, e.tab, fail}),
 		standardsubscriber.WithAttestationAggregator(e.realAgg),
 		standardsubscriber.WithBeaconCommitteeSubmitter(sub),
 	)
+}
+
+// watchedSubscribe calls Subscribe with the accounts of the epoch and waits for it
+// to return.  returned=false means: it has not returned and cannot any more - every
+// goroutine inside the subscriber is parked, the unfinished workers in the
+// subscriber's semaphore, the caller in the wait group (confirmed on three
+// consecutive goroutine dumps showing the same set).  Time only decides when to look.
+func (e *env) watchedSubscribe(ctx context.Context, s *standardsubscriber.Service, epoch uint64) (map[phase0.Slot]map[phase0.CommitteeIndex]*beaconcommitteesubscriber.Subscription, error, bool) {
+	type result struct {
+		info map[phase0.Slot]map[phase0.CommitteeIndex]*beaconcommitteesubscriber.Subscription
+		err  error
+	}
+	ch := make(chan result, 1)
+	go func() {
+		info, err := s.Subscribe(ctx, phase0.Epoch(epoch), e.acc.forEpoch(epoch))
+		ch <- result{info, err}
+	}()
+	var last string
+	same := 0
+	deadline := time.Now().Add(60 * time.Second)
+	for spins := 0; ; spins++ {
+		select {
+		case r := <-ch:
+			return r.info, r.err, true
+		default:
+		}
+		runtime.Gosched()
+		if spins < 2000 {
+			continue
+		}
+		time.Sleep(200 * time.Microsecond)
+		if spins%20 != 0 {
+			continue
+		}
+		if sig, stuck := subscriberParked(); stuck && sig == last {
+			same++
+			if same >= 3 {
+				return nil, nil, false
+			}
+		} else {
+			last, same = sig, 0
+			if !stuck {
+				last = ""
+			}
+		}
+		if time.Now().After(deadline) {
+			// not parked and not finished: a harness problem, reported as such by the caller's quiesce
+			r := <-ch
+			return r.info, r.err, true
+		}
+	}
+}
+
+// subscriberParked inspects a dump of all goroutines: stuck is true if at least one
+// goroutine is inside the subscriber's calculateSubscriptionInfoForDuty waiting in
+// semaphore.Acquire and EVERY goroutine that is inside the subscriber package is
+// either such a waiter or the caller waiting in the wait group.  The returned string
+// identifies the set of those goroutines.
+func subscriberParked() (string, bool) {
+	buf := make([]byte, 1<<20)
+	n := runtime.Stack(buf, true)
+	waiters := 0
+	var ids []string
+	for _, g := range strings.Split(string(buf[:n]), "\n\n") {
+		if !strings.Contains(g, "beaconcommitteesubscriber/standard.") {
+			continue
+		}
+		header := g
+		if i := strings.Index(g, "\n"); i >= 0 {
+			header = g[:i]
+		}
+		switch {
+		case strings.Contains(g, "semaphore.(*Weighted).Acquire") && strings.Contains(g, "calculateSubscriptionInfoForDuty") && strings.Contains(header, "[select"):
+			waiters++
+		case strings.Contains(g, "sync.(*WaitGroup).Wait") && strings.Contains(g, "calculateSubscriptionInfo("):
+		default:
+			return "", false // somebody inside the subscriber can still make progress
+		}
+		ids = append(ids, header[:strings.Index(header, "[")])
+	}
+	sort.Strings(ids)
+	return strings.Join(ids, ","), waiters > 0
 }
 
 // phase 0: the selection rule itself, called on this goroutine so that a
@@ -943,6 +1146,16 @@ func (e *env) judgeSelection(ctx context.Context) (js []judgement) {
 			sizes = append(sizes, c.Committees[d.C].Size)
 		}
 		sigs, aggs, err := e.realAgg.AggregatorsAndSignatures(ctx, accounts, phase0.Slot(s), sizes)
+		failing := false
+		for _, d := range bySlot[s] {
+			failing = failing || d.SigFail
+		}
+		if failing {
+			if err == nil {
+				js = append(js, judgement{"selection-ignores-signing-failure", fmt.Sprintf("AggregatorsAndSignatures for slot %d returned no error although the signer refused the request", s)})
+			}
+			continue
+		}
 		if err != nil || len(sigs) != len(accounts) || len(aggs) != len(accounts) {
 			js = append(js, judgement{"selection-failed", fmt.Sprintf("AggregatorsAndSignatures for slot %d returned %d signatures, %d flags, error %v for %d accounts", s, len(sigs), len(aggs), err, len(accounts))})
 			continue
@@ -1002,7 +1215,7 @@ func (e *env) judgeInfo(epoch uint64, info map[phase0.Slot]map[phase0.CommitteeI
 		}
 	}
 	for k := range pairs {
-		if k.slot/c.SlotsPerEpoch == epoch && !seen[k] {
+		if k.slot/c.SlotsPerEpoch == epoch && !seen[k] && !pairs[k].excused {
 			js = append(js, judgement{"info-missing-pair", fmt.Sprintf("subscription info of epoch %d lacks slot %d committee %d", epoch, k.slot, k.committee)})
 		}
 	}
@@ -1028,7 +1241,9 @@ func (e *env) judgeSubscriptionsAt(who string, epoch uint64, subs []*apiv1.Beaco
 			continue
 		}
 		if k.slot > cur {
-			want[k] = true
+			if !pairs[k].excused {
+				want[k] = true
+			}
 		} else {
 			nonFuture = true
 		}
@@ -1129,6 +1344,22 @@ func runAndJudge(c *Case) (string, []judgement, stats) {
 			st.sharedPair = true
 		}
 	}
+	for _, p := range pairs {
+		if p.excused {
+			st.excusedPairs++
+		}
+	}
+	{
+		inCur := map[uint64]bool{}
+		for _, v := range e.acc.cur {
+			inCur[v] = true
+		}
+		for _, v := range e.acc.next {
+			if !inCur[v] {
+				st.activationAtNextEpoch = true
+			}
+		}
+	}
 	st.bothSides = past && future
 	st.pastOnly = past && !future
 	st.futureOnly = future && !past
@@ -1153,7 +1384,13 @@ func runAndJudge(c *Case) (string, []judgement, stats) {
 		return "cannot construct subscriber: " + err.Error(), nil, st
 	}
 	for _, epoch := range []uint64{c.Epoch, c.Epoch + 1} {
-		info, err := s1.Subscribe(ctx, phase0.Epoch(epoch), e.acc.all())
+		info, err, returned := e.watchedSubscribe(ctx, s1, epoch)
+		if !returned {
+			js = append(js, judgement{"subscribe-never-returned", fmt.Sprintf("Subscribe(epoch %d) did not return: all of its goroutines are parked - the unfinished ones waiting for a permit of the subscriber's own semaphore (process concurrency %d) that nobody can release any more", epoch, c.concurrency())})
+			cancel() // releases the parked goroutines (the semaphore honours the context)
+			quiesce(baseline)
+			return "", js, st // the controller's start-up would hang in the same way
+		}
 		if !quiesce(baseline) {
 			return "goroutines of Subscribe did not finish", nil, st
 		}
@@ -1171,6 +1408,9 @@ func runAndJudge(c *Case) (string, []judgement, stats) {
 	s2, err := e.newSubscriber(ctx, sub2, subFail)
 	if err != nil {
 		return "cannot construct subscriber: " + err.Error(), nil, st
+	}
+	if c.SlowSubmit {
+		sub2.startHolding()
 	}
 	sched := fakes.NewSched()
 	evp := &eventsProvider{handlers: map[string]eth2client.EventHandlerFunc{}}
@@ -1202,11 +1442,13 @@ func runAndJudge(c *Case) (string, []judgement, stats) {
 	if err != nil {
 		return "cannot construct controller: " + err.Error(), nil, st
 	}
-	if !quiesce(baseline) {
+	if !quiesce(baseline, sub2.heldCount) {
 		return "goroutines of the controller start-up did not finish", nil, st
 	}
-	for _, epoch := range []uint64{c.Epoch, c.Epoch + 1} {
-		js = append(js, e.judgeSubscriptions("controller start-up", epoch, sub2.all(), pairs)...)
+	if !c.SlowSubmit {
+		for _, epoch := range []uint64{c.Epoch, c.Epoch + 1} {
+			js = append(js, e.judgeSubscriptions("controller start-up", epoch, sub2.all(), pairs)...)
+		}
 	}
 
 	// ---- history steps: the duties change (reorg across a duty-dependent root) and/or a
@@ -1324,7 +1566,7 @@ func runAndJudge(c *Case) (string, []judgement, stats) {
 		spy.got = nil
 		spy.mu.Unlock()
 		ctrl.AttestAndScheduleAggregate(ctx, duty)
-		if !quiesce(baseline) {
+		if !quiesce(baseline, sub2.heldCount) {
 			return "goroutines of AttestAndScheduleAggregate did not finish", nil, st
 		}
 		// every job set up during the call is run; what reaches the aggregator is what was set up
@@ -1402,14 +1644,14 @@ func runAndJudge(c *Case) (string, []judgement, stats) {
 		var missing []string
 		expected := 0
 		for k, p := range pairs {
-			if k.slot != slot || !p.hasAtt {
+			if k.slot != slot || !p.hasAtt || p.excused {
 				continue
 			}
 			if old := stale[slot/c.SlotsPerEpoch]; old != nil {
 				// failed refresh: only what the last successful subscription knew and still stands is demanded
 				o := old[k]
 				stands := false
-				if o != nil {
+				if o != nil && !o.excused {
 					for _, v := range o.selected {
 						stands = stands || contains(p.vals, v)
 					}
@@ -1432,6 +1674,16 @@ func runAndJudge(c *Case) (string, []judgement, stats) {
 			} else {
 				js = append(js, judgement{"aggregation-missing", fmt.Sprintf("after attesting slot %d: no aggregation job for %s", slot, strings.Join(missing, "; "))})
 			}
+		}
+	}
+	if c.SlowSubmit {
+		// the beacon node answers at last: the subscriptions made at start-up are judged now
+		sub2.releaseAll()
+		if !quiesce(baseline) {
+			return "goroutines of the released subscription requests did not finish", nil, st
+		}
+		for _, epoch := range []uint64{c.Epoch, c.Epoch + 1} {
+			js = append(js, e.judgeSubscriptions("controller start-up (answered late)", epoch, sub2.all(), pairs)...)
 		}
 	}
 	cancel()
@@ -1466,6 +1718,16 @@ func check(t ev.TB, c *Case) {
 	if st.refail {
 		labels = append(labels, "history-with-failing-re-subscription")
 	}
+	if c.SlowSubmit {
+		labels = append(labels, "subscription-requests-answered-after-attesting")
+	}
+	if st.excusedPairs > 0 {
+		labels = append(labels, "slot-selection-signing-fails-for-some-slot")
+	}
+	if st.activationAtNextEpoch {
+		labels = append(labels, "validator-active-only-from-next-epoch")
+	}
+	labels = append(labels, fmt.Sprintf("process-concurrency-%d", c.concurrency()))
 	if st.failedRefreshWithChange {
 		labels = append(labels, "duty-change-whose-re-subscription-fails")
 	}
